@@ -29,13 +29,20 @@ BOUNDS = {
 }
 
 OUT = ["data_vector", "curvature_matrix", "regularization_matrix", "reconstruction", "mapped_reconstructed_data",
-       "regularization_term", "log_det_curvature_reg_matrix_term", "log_det_regularization_matrix_term"]
+       "regularization_term", "log_det_curvature_reg_matrix_term", "log_det_regularization_matrix_term", "curvature_reg_matrix"]
 ORDERS = {
     "natural": list(OUT),
     "reg-sum-first": ["curvature_reg_matrix", "reconstruction", "data_vector", "regularization_matrix", "mapped_reconstructed_data",
                       "log_det_regularization_matrix_term", "log_det_curvature_reg_matrix_term", "regularization_term", "curvature_matrix"],
     "lazy-last-first": list(reversed(OUT)),
+    # curvature_matrix re-read between the in-place F+H sum and its later consumers
+    "curvature-between-consumers": ["reconstruction", "curvature_matrix", "log_det_curvature_reg_matrix_term", "curvature_reg_matrix",
+                                    "regularization_matrix", "data_vector", "mapped_reconstructed_data", "regularization_term",
+                                    "log_det_regularization_matrix_term"],
 }
+# two live inversions sharing the Preloads object, read alternately
+PAIR_ORDER = ["curvature_matrix", "reconstruction", "curvature_reg_matrix", "log_det_curvature_reg_matrix_term", "data_vector",
+              "regularization_matrix", "mapped_reconstructed_data", "regularization_term", "log_det_regularization_matrix_term"]
 SLOTS = ["w_tilde", "curvature_matrix", "regularization_matrix", "operated_mapping_matrix"]
 
 LISTS = [
@@ -75,6 +82,7 @@ class Graph:
         for oname in ORDERS:
             for reuse in (False, True):
                 self.events.append(("inv[%s,%s]" % (oname, "reused-objs" if reuse else "fresh-objs"), self._mk(oname, reuse)))
+        self.events.append(("inv-pair[interleaved reads,fresh-objs]", self._mk_pair()))
         # reference without preloads, on an independent identical dataset
         fx, objs = self._fresh()
         # the formalism the factory will actually pick: the preload slot can only switch w-tilde OFF
@@ -152,13 +160,29 @@ class Graph:
 
         return fn
 
+    def _mk_pair(self):
+        def fn(ctx):
+            aa = ctx["aa"]
+            frame, ks, bits, kind, sub, (kinds, regs), wt, uw, slots, depth, seed = self.case
+            invs = []
+            for _ in range(2):
+                objs = [fix_inv.make_obj(ctx["fx"], k, reg=r, seed=seed) for k, r in zip(kinds, regs)]
+                invs.append(aa.Inversion(dataset=ctx["ds"], linear_obj_list=objs, settings=fix_inv.settings(aa, self.wt, diag=1e-3), preloads=ctx["pre"]))
+            got = [{}, {}]
+            for k in PAIR_ORDER:
+                for i, inv in enumerate(invs):  # A.k, B.k, then the next quantity
+                    got[i][k] = np.array(getattr(inv, k), dtype=float).copy()
+            return [got[0][k] for k in OUT] + [got[1][k] for k in OUT]
+
+        return fn
+
     def check(self, ctx, idx, res, hist_labels):
         viol = []
         label = self.events[idx][0]
         if res[0] != "ok":
             viol.append({"finding": "inversion-with-preloads:exception", "msg": "%s after %s: %s" % (label, hist_labels, res[1:])})
             return viol
-        for k, val in zip(OUT, res[1]):
+        for k, val in zip(OUT * (len(res[1]) // len(OUT)), res[1]):
             ref = self.ref[k]
             scale = max(1.0, float(np.abs(ref).max()) if ref.size else 1.0)
             if val.shape != ref.shape or not np.allclose(val, ref, rtol=self.tol[k], atol=self.tol[k] * scale):
